@@ -6,7 +6,7 @@ use crate::{
     nurse::MockNurse,
 };
 use callbag::{
-    combine, concat, filter, flatten, for_each, from_iter, interval, map, merge, scan, share, skip,
+    concat, filter, flatten, for_each, from_iter, interval, map, merge, scan, share, skip,
     take,
 };
 use serde_json::{json, Value};
@@ -231,27 +231,42 @@ pub fn build(sc: &Value, env: &Arc<Env>) -> Graph {
                     V::I(seed),
                 )(upv(&built, 0))))
             },
-            "take" => Node::V(Arc::new(take(n["n"].as_u64().unwrap() as usize)(upv(&built, 0)))),
-            "skip" => Node::V(Arc::new(skip(n["n"].as_u64().unwrap() as usize)(upv(&built, 0)))),
+            // (pipe! with two arguments: plain application)
+            "take" => Node::V(Arc::new(callbag::pipe!(upv(&built, 0), take(n["n"].as_u64().unwrap() as usize)))),
+            "skip" => Node::V(Arc::new(callbag::pipe!(upv(&built, 0), skip(n["n"].as_u64().unwrap() as usize),))),
+            // n-ary operators are built with the crate's macros (what users write); other member counts
+            // go through the function the macro expands to
             "merge" => {
                 let v: Vec<Src<V>> = (0..ups.len()).map(|i| upv(&built, i)).collect();
-                Node::V(Arc::new(merge(v.into_boxed_slice())))
+                let s: callbag::Source<V> = match v.len() {
+                    1 => callbag::merge!(Arc::clone(&v[0])),
+                    2 => callbag::merge!(Arc::clone(&v[0]), Arc::clone(&v[1])),
+                    3 => callbag::merge!(Arc::clone(&v[0]), Arc::clone(&v[1]), Arc::clone(&v[2]),),
+                    _ => merge(v.into_boxed_slice()),
+                };
+                Node::V(Arc::new(s))
             },
             "concat" => {
                 let v: Vec<Src<V>> = (0..ups.len()).map(|i| upv(&built, i)).collect();
-                Node::V(Arc::new(concat(v.into_boxed_slice())))
+                let s: callbag::Source<V> = match v.len() {
+                    1 => callbag::concat!(Arc::clone(&v[0])),
+                    2 => callbag::concat!(Arc::clone(&v[0]), Arc::clone(&v[1])),
+                    3 => callbag::concat!(Arc::clone(&v[0]), Arc::clone(&v[1]), Arc::clone(&v[2]),),
+                    _ => concat(v.into_boxed_slice()),
+                };
+                Node::V(Arc::new(s))
             },
             "combine" => match ups.len() {
                 1 => Node::V(adapt(
-                    Arc::new(combine((upv(&built, 0),))),
+                    Arc::new(callbag::combine!(upv(&built, 0))),
                     Arc::new(|(a,): (V,)| V::T(vec![a])),
                 )),
                 2 => Node::V(adapt(
-                    Arc::new(combine((upv(&built, 0), upv(&built, 1)))),
+                    Arc::new(callbag::combine!(upv(&built, 0), upv(&built, 1))),
                     Arc::new(|(a, b): (V, V)| V::T(vec![a, b])),
                 )),
                 3 => Node::V(adapt(
-                    Arc::new(combine((upv(&built, 0), upv(&built, 1), upv(&built, 2)))),
+                    Arc::new(callbag::combine!(upv(&built, 0), upv(&built, 1), upv(&built, 2),)),
                     Arc::new(|(a, b, c): (V, V, V)| V::T(vec![a, b, c])),
                 )),
                 _ => panic!("harness: combine arity 1..3 only"),
@@ -315,8 +330,13 @@ impl Graph {
             "foreach" => {
                 let env = Arc::clone(&self.env);
                 let nm = format!("F{k}");
-                let t = tap(&self.env, k, Arc::clone(&self.root));
-                for_each(move |x: V| env.event("fn", &nm, "", x.json()))(t);
+                // pipe! with three arguments (the recursive arm): source, tap, for_each
+                let env_t = Arc::clone(&self.env);
+                callbag::pipe!(
+                    Arc::clone(&self.root),
+                    move |s: Src<V>| tap(&env_t, k, s),
+                    for_each(move |x: V| env.event("fn", &nm, "", x.json())),
+                );
             },
             "foreach_raw" => {
                 let env = Arc::clone(&self.env);
